@@ -86,7 +86,7 @@ CHECKS["C10"] = {"text": "Proved on the model: at a project-wide absence step no
     "of the run with ANY absence list (any order, duplicates, steps beyond the end) has the same time, status, live state and the same logs and cost lists at every level as the run without absence (lock-step "
     "simulation on the behaviour-relevant key of the state: every phase computes the key of its result from the key of its argument, an absence step is a stutter, __update is idempotent on the key; "
     "popping sorted(set(L)) from a log keeps exactly the entries at unlisted positions); PERT scratch values are not compared. at run level an individually absent worker or facility is ABSENCE in every allocated / performed / recorded snapshot of the step and so contributes and costs nothing. PARTIAL: the "
-    "deletion clause for TSLACK / EST on networks with SS/FF/SF links and for FIFO, is searched by the oracle; for FIFO one finding is recorded (known_findings.json).",
+    "deletion clause for TSLACK / EST on networks with SS/FF/SF links and for FIFO, is searched by the oracle; for FIFO the clause is false: a recorded finding (known_findings.json) and, on the model, the theorem C10_deletion_refuted_for_FIFO (a three-task witness evaluated by vm_compute; the same case is in the corpus for the implementation).",
     "note": COMMON_NOTE.replace("no axioms (Print Assumptions: closed under the global context)", "the deletion theorem uses one standard-library axiom, functional_extensionality_dep (through the idempotence of __update); the other C10 theorems are closed under the global context") +
             " PARTIAL: deletion clause searched for rules 0, 1 outside FS DAGs and for rule 4; KNOWN FINDING C10/f-fifo.",
     "technique": "Coq proof: phase characterisations + ghost-history log representation + key congruence / stutter simulation between the two runs; oracle (incl. deletion vs absence-free run) + full-state correspondence"}
